@@ -486,22 +486,38 @@ class DiffXReader(object):
                 'Expected a newline after content',
                 linenum=self._linenum - 1)
 
+        # Make sure the options we'll be working with are of a usable type,
+        # reporting anything else against the section's header.
+        if encoding is not None and not isinstance(encoding, str):
+            raise DiffXParseError(
+                'Unsupported value "%s" for encoding' % encoding,
+                linenum=self._linenum - 1)
+
+        if (indent is not None and
+            (not isinstance(indent, int) or indent < 0)):
+            raise DiffXParseError(
+                'Expected the indent option to be a non-negative integer, '
+                'not "%s"' % indent,
+                linenum=self._linenum - 1)
+
         # First, determine the line endings that we're going to be working
         # with.
-        if line_endings:
-            # An explicit line ending type was specified. Validate it and
-            # get the newline characters, encoding it for the byte string.
-            try:
+        try:
+            if line_endings:
+                # An explicit line ending type was specified. Validate it and
+                # get the newline characters, encoding it for the byte string.
                 newline = get_newline_for_type(line_endings,
                                                encoding=encoding)
-            except ValueError as e:
-                raise DiffXParseError(str(e),
-                                      linenum=self._linenum)
-        else:
-            # An explicit line ending type was not specified. Try to determine
-            # the appropriate line ending based on the first line of content.
-            line_endings, newline = guess_line_endings(content,
-                                                       encoding=encoding)
+            else:
+                # An explicit line ending type was not specified. Try to
+                # determine the appropriate line ending based on the first
+                # line of content.
+                line_endings, newline = guess_line_endings(content,
+                                                           encoding=encoding)
+        except (LookupError, ValueError) as e:
+            # Either the line endings or the encoding aren't supported.
+            raise DiffXParseError(str(e),
+                                  linenum=self._linenum)
 
         lines = split_lines(data=content,
                             newline=newline,
@@ -513,7 +529,10 @@ class DiffXReader(object):
             # or due to some error the indentation on some line may be
             # wrong. Be careful to strip only the spaces, up to the specified
             # indentation level.
-            indent_re = re.compile(br'^ {1,%d}' % indent)
+            #
+            # No line can have more indentation than there is content, so
+            # cap the value, keeping it within what a regex can express.
+            indent_re = re.compile(br'^ {1,%d}' % min(indent, len(content)))
             content = b''.join(
                 indent_re.sub(b'', _line)
                 for _line in lines
@@ -522,8 +541,13 @@ class DiffXReader(object):
         if encoding and not keep_bytes:
             # We know what this content was encoded with. We can now decode
             # it.
-            content = content.decode(encoding)
-            newline = newline.decode(encoding)
+            try:
+                content = content.decode(encoding)
+                newline = newline.decode(encoding)
+            except (LookupError, ValueError) as e:
+                raise DiffXParseError(
+                    'The content could not be decoded: %s' % e,
+                    linenum=self._linenum)
 
         # Validate that the content ends in a newline. This is to ensure that
         # the file was written according to spec.
